@@ -615,8 +615,25 @@ Definition C32_mismatch (c : c32_case) : bool :=
 
 (* the property on the implementation's observations alone:
    the observed results are those of the specification tracker, the observed
-   count is the number of outstanding identities after every call, and the
-   final internal map holds exactly the outstanding identities *)
+   count is the number of outstanding identities after every call, the final
+   internal map holds exactly the outstanding identities and the final session
+   index is its projection *)
+(* the final session index is exactly the projection of the final rows: every
+   indexed message id is a stored identity of that session and every stored
+   identity is indexed (a closed / acked / expired identity leaves nothing behind) *)
+Definition index_is_projection (entries : list (key * entry)) (sessions : list (skey * list N)) : bool :=
+  forallb (fun row : skey * list N =>
+             match snd row with
+             | [] => false
+             | ms => forallb (fun m => match al_get key_eqb (fst (fst row), snd (fst row), m) entries with
+                                       | Some _ => true | None => false end) ms
+             end) sessions
+  && forallb (fun ke : key * entry =>
+                match al_get skey_eqb (key_skey (fst ke)) sessions with
+                | Some ms => mem_mid (key_mid (fst ke)) ms
+                | None => false
+                end) entries.
+
 Definition C32_monitor (c : c32_case) : N :=
   match spec_run [] (c_now c) (c_steps c) with
   | None => 1
@@ -624,5 +641,6 @@ Definition C32_monitor (c : c32_case) : N :=
     if Nat.eqb (length (c_entries c)) (length s)
        && keys_nodup (map fst (c_entries c))
        && forallb (fun ke => spec_has s (fst ke)) (c_entries c)
+       && index_is_projection (c_entries c) (c_sessions c)
     then 0 else 1
   end.
